@@ -10,5 +10,25 @@ CHECKS = {
   "text": "TLC explores the KmerIter specification over every string of the 5 classes {A,C,G,T/U,other} up to length 7 (quick) / 9 (thorough) for k=1..4 and checks in every state that the output is exactly the clean windows of the consumed prefix, plus the register invariant; the same run loads the real KmerGenerator's output for every one of those inputs and requires equality (B1). Random byte strings with k=1..31 and every byte value 4..255 are validated call-by-call (returned pair as 32 digits, pos, len, registers) against the same specification (B2).",
   "ref": "DESIGN.md 5.2, 6 C01",
   "note": TB + "k=5..31 are covered by validated traces, not exhaustively.",
-  "technique": "TLC exhaustive model checking with implementation table (B1) + TLC trace validation (B2)"},
+  "technique": "TLC exhaustive model checking with implementation table (B1) + TLC trace validation (B2)"},,
+ "C02": {
+  "text": "TLC walks the tree of all base-4 digit strings up to length 8 (quick) / 10 (thorough) - every code x<4^k for every k in range - checking that the loop-shaped rev_comp and numeric_to_kmer of the specification equal the declarative RC/Decode, involution, text reverse complement and Encode(Decode(x))=x, and that the real rev_comp / numeric_to_kmer agree on every code (table loaded into TLC). Strand symmetry: MCKmerIter checks PairRC, StrandSym and the canonical multiset on the model and ImplStrandSym on the real iterator's table for all class strings up to length 6/8. Codes for k up to 31 are sampled (extremes, RC-palindromes, perturbations) and judged by the specification as 32-digit words.",
+  "ref": "DESIGN.md 5.1, 6 C02",
+  "note": TB + "Exhaustive for k<=10 rather than the statement's k<=12 (JSON loading into TLC is the bottleneck); k=11..31 sampled.",
+  "technique": "TLC exhaustive model checking with implementation table (B1) + TLC-judged sampled facts (B2)"},
+ "C03": {
+  "text": "TLC scans all 4^k codes for every k<=8 (quick) / 10 (thorough) with a rank counter and compares the real kmer_pos_maps(k) at every code: rank of each canonical code, exact inverse, count equal to the closed form, every table entry inside the vector. Header lines of `kmertools comp oligo -H` for k=3..7 x {csv,tsv,spc} x {mmap, batch} and the Python get_header() for k=1..8 are decoded to letter bytes and compared by TLC with the specification's canonical list.",
+  "ref": "DESIGN.md 5.3, 6 C03",
+  "note": TB + "Header lines are split on the preset's delimiter by the check script.",
+  "technique": "TLC exhaustive model checking with implementation table (B1) + TLC-judged header facts from CLI and Python (B4)"},
+ "C09": {
+  "text": "TLC explores the Minimiser specification (a transcription of the iterator's loop body: rolling m-mer, ring buffer, leftmost-minimum rescan, run breaking, end-of-input flush) over every string of {A,C,G,T/U,other} up to length 7 (quick) / 9 (thorough) for seven (w,m) pairs, and over {A,C,other} up to length 10/12 for larger windows, checking in every state that emitted runs + open run equal the declarative maximal runs of the consumed prefix, the ring-buffer invariant and that no placeholder is emitted; the same run requires the real MinimiserGenerator's and KmerMinimiserGenerator's complete outputs to equal the model's for every input (B1). Random runs with m<=31, w<=m+60 are validated call-by-call including pos, ml, ring length, buff_pos, m_active, window start and the m-mer registers (B2).",
+  "ref": "DESIGN.md 5.4, 6 C09",
+  "note": TB + "Exhaustive only for m<=3 and short inputs; larger parameters by validated traces.",
+  "technique": "TLC exhaustive model checking with implementation table (B1) + TLC trace validation with internal state (B2)"},
+ "C18": {
+  "text": "Same specification as C09 extended with the rolling W-mer and the per-run k-mer lists: TLC checks in every state that the concatenated lists plus the current call's list are exactly the canonical w-mers of the consumed prefix (KConcat) and that the runs are the declarative runs (hence equal to the plain iterator's, which is bound to the same model), and requires the real KmerMinimiserGenerator's complete output (runs and lists) to equal the model's for every input up to the bound (B1); random runs with m<=w<=31 validated call-by-call incl. internal state and w-mers as 32-digit words (B2).",
+  "ref": "DESIGN.md 5.4, 6 C18",
+  "note": TB + "Attribution of a w-mer to a particular run is not constrained by the property; the model transcribes the code's attribution and the conformance check therefore also pins it.",
+  "technique": "TLC exhaustive model checking with implementation table (B1) + TLC trace validation with internal state (B2)"},
 }
